@@ -51,6 +51,19 @@ def gcall(seconds, f, *a, **k):
         return "exc", f"{type(e).__name__}: {e}"
 
 
+def fail_kind(st, v):
+    """'raised: <Type>' / 'timeout' for a gcall outcome that is not 'ok'."""
+    return "raised: " + str(v).split(":")[0] if st == "exc" else "timeout"
+
+
+def kind(what):
+    """Failure class of a `what` string: 'raised:<Type>' keeps the exception type, otherwise the part before ':'."""
+    head = what.split(":")[0]
+    if head == "raised":
+        return "raised:" + what.split(":")[1].split()[0]
+    return head
+
+
 # ---------------------------------------------------------------- semiring table (adds Log)
 def semirings():
     """bridge.SEMIRINGS plus the shipped Log semiring: name -> (R, spec ops, Fraction -> weight, weight -> spec value)."""
@@ -89,6 +102,26 @@ def spec_automaton(a, sr):
         return Fraction(w)
     return A(a.states, {q: f(w) for q, w in a.start.items()}, {q: f(w) for q, w in a.stop.items()},
              [(i, l, j, f(w)) for i, l, j, w in a.arcs])
+
+
+def build_wfsa(cls, R, conv, a):
+    """Real automaton of class `cls` over semiring R from the neutral form (weights through `conv`)."""
+    m = cls(R)
+    for q in sorted(a.states, key=repr):
+        m.add_state(q)
+    for q, w in a.start.items():
+        m.add_I(q, conv(w))
+    for q, w in a.stop.items():
+        m.add_F(q, conv(w))
+    for i, lab, j, w in a.arcs:
+        m.add_arc(i, lab, j, conv(w))
+    return m
+
+
+def snapshot(m, val):
+    """Neutral form of a real automaton (weights through `val`)."""
+    return A(frozenset(m.states), {q: val(w) for q, w in m.start.items()}, {q: val(w) for q, w in m.stop.items()},
+             [(i, l, j, val(w)) for i, l, j, w in m.arcs()])
 
 
 def rename_states(a, f):
